@@ -505,8 +505,6 @@ def one(task):
         bad = None
         if exp is not None and (len(got) != len(exp) or any(len(a) != len(b) for a, b in zip(got, exp))):
             bad = ("csv-grid-shape", f"exported {len(got)}x{len(got[0]) if got else 0} grid, expected {len(exp)}x{len(exp[0])}: got {got[:3]!r}")
-        if parsed is None and exp is None:
-            bad = ("csv-malformed-input-accepted", f"text the strict reader refuses ({parse_err}) was converted: {got[:3]!r}")
         for i, row in enumerate(got):
             crow = []
             for j, t in enumerate(row):
@@ -567,7 +565,7 @@ def one(task):
 
 
 def run_pipeline(ctx: Ctx):
-    n = 2500 if ctx.quick else 20000
+    n = 1500 if ctx.quick else 12000
     tasks = [(ctx.seed, c) for c in CORPUS] + [(ctx.seed, ("raw",) + c) for c in RAW_CORPUS] + [(ctx.seed, i) for i in range(n)]
     ie_req, ie_out, cv_req, cv_out = [], [], [], []
     for reqs in common.run_parallel(ctx, one, tasks):
